@@ -114,6 +114,12 @@ def check(ctx, rep):
                 nstop += 1
                 later = [e for e in pops if e.seq > b.seq]
                 rep.ob("R-ADMIT", "%s: loop stops when limit <= in-flight" % li.target.qualname, not later, "a job is dequeued after `limit <= in-flight` was established", where_of(b.fn, b.node), trace_of(p))
+                # ... and the drain loop is left: going round again with nothing changed spins for ever, with the
+                # queue's lock held
+                encl = [l for l in p.evs("loop") if l.seq < b.seq and l.fn is b.fn and l.d[0] in ("enter", "back")]
+                if encl:
+                    nxt = [l for l in p.evs("loop") if l.seq > b.seq and l.node is encl[-1].node]
+                    rep.ob("R-ADMIT", "%s: the drain loop is left when the limit is reached" % li.target.qualname, bool(nxt) and nxt[0].d[0] == "exit", "after `limit <= in-flight` the loop over the queue goes round again instead of ending: nothing has changed, so it spins for ever while holding the queue's lock (submitters and cancels block)", where_of(b.fn, b.node), trace_of(p, b.seq))
             if n[2] == counter and n[1] == "<":
                 # limit < counter established only as the stop condition: then equality would be admitted
                 later = [e for e in pops if e.seq > b.seq]
